@@ -34,6 +34,17 @@ func (v *Vue) evalConditionExpr(ctx VueContext, expr string) (bool, error) {
 		return helpers.IsTruthy(val), nil
 	}
 
+	// A filter chain (items | len, name | trim | upper) is evaluated like in {{ }}, and its result
+	// judged by the truthiness rule. (Only when every filter is a registered function: a chain
+	// that names an unknown one keeps its old meaning - false, without an error.)
+	if pipe, ok := v.filterChain(expr); ok {
+		val, err := v.evalPipe(ctx, pipe)
+		if err != nil {
+			return false, fmt.Errorf("in expression '%s': %w", expr, err)
+		}
+		return helpers.IsTruthy(val), nil
+	}
+
 	// Try to evaluate as expr expression first (supports ==, !=, &&, ||, !, <, >, <=, >=, and function calls)
 	result, err := v.exprEval.Eval(expr, v.exprEnv(ctx, expr))
 	if err == nil {
@@ -74,6 +85,27 @@ func (v *Vue) evalConditionExpr(ctx VueContext, expr string) (bool, error) {
 	}
 
 	return helpers.IsTruthy(val), nil
+}
+
+// filterChain parses expr as "value | filter | filter(args)" and reports whether it is one: at
+// least one segment, all of them calls of registered functions.
+func (v *Vue) filterChain(expr string) (pipeExpr, bool) {
+	if helpers.IsComplexExpr(expr) || !strings.Contains(helpers.MaskQuoted(expr), "|") {
+		return pipeExpr{}, false
+	}
+	pipe := parsePipeExpr(expr)
+	if len(pipe.segments) == 0 || strings.TrimSpace(pipe.initial) == "" {
+		return pipeExpr{}, false
+	}
+	for _, seg := range pipe.segments {
+		if seg.typ != segmentFilter {
+			return pipeExpr{}, false
+		}
+		if _, registered := v.funcMap[seg.name]; !registered {
+			return pipeExpr{}, false
+		}
+	}
+	return pipe, true
 }
 
 // evalElseIfChain evaluates a v-if, v-else-if, v-else chain starting at the given node.
